@@ -192,6 +192,8 @@ def shape_styled(v):
   s4.add_animation_step(m.DiscreteAnimationStep(SP.Color, v("ab"), v("ae"), sp.NamedColors.lime.value))
   span("s5", p, "G", BackgroundColor=sp.NamedColors.blue.value)
   br = m.Br(d); br.set_id("br"); p.push_child(br)
+  s8 = span("s8", p, None)
+  span("s9", s8, "W", Color=sp.ColorType((255, 255, 255, 255)))      # the default colour, specified (an equal, not the identical, value) under a default parent
   s6 = span("s6", p, None, FontWeight=sp.FontWeightType.bold, FontStyle=sp.FontStyleType.oblique)
   span("s7", s6, "N", FontWeight=sp.FontWeightType.normal, TextDecoration=sp.TextDecorationType(underline=False, line_through=True))
   return d
